@@ -1,7 +1,275 @@
-"""C19: no contract within the solver's reach (in-degree = cardinality of unprocessed predecessors); bounded stand-in only."""
+"""Contracts for superrec2.utils.toposort (C19): the single-ordering routine `toposort` (Kahn's algorithm).
+
+Postconditions (taken from the property): a returned list is a topological ordering (every vertex exactly once, every edge forward);
+`None` is returned only when NO sequence is a topological ordering (stated for an arbitrary ghost sequence `pi`, i.e. for all of them).
+
+The counting part of Kahn's algorithm (in-degree = number of predecessors not yet output) is carried by a ghost counting function
+`rem(graph, D, v)` = |{u in graph, u not in D : v in graph[u]}|, of which only four first-order facts are used (ASSUMED axioms: they are
+statements about cardinalities of finite sets, which the SMT back ends cannot define) and by two pigeonhole facts about `len(dict)`
+(ASSUMED lemmas).  All of them are evaluated on concrete graphs by the bounded stand-in `toposort:counting-axioms`.
+`collections.deque` is modelled as a sequence (popleft / append / remove-first-occurrence, stated element-wise by the engine).
+"""
+from pyvc.contracts import Contract, LoopSpec
+
+M = "superrec2.utils.toposort"
+REQUIRES = []
+
+G = "Map[Vtx, Set[Vtx]]"
+
+
+def _native_rem(graph, done, v):
+    return sum(1 for u in graph if u not in done and v in graph[u])
+
+
+def _native_is_order(g, p):
+    return (all(x in g for x in p) and all(u in p for u in g)
+            and all(i < j for i in range(len(p)) for j in range(len(p)) if p[j] in g[p[i]]))
+
+
+def _native_rem_wit(graph, done, v):
+    for u in graph:
+        if u not in done and v in graph[u]:
+            return u
+    return None
 
 
 def setup(E):
+    add = E.registry.add
+    E.declare_ref("Vtx")
+    # ---- ghost counting function and what is assumed of it
+    E.spec("rem", f"g: {G}, d: Set[Vtx], v: Vtx", "Int", None, native=_native_rem)
+    E.declare_ufun("rem_wit", [G, "Set[Vtx]", "Vtx"], "Vtx", native=_native_rem_wit)
+    note = "cardinality of a finite predecessor set: |{u in g, u not in d : v in g[u]}|; not definable in the SMT theories used, validated on concrete graphs by the bounded stand-in"
+    K = ["rem"]
+    E.axiom("rem/non-negative", "forall(lambda g, d, v: rem(g, d, v) >= 0, Map[Vtx, Set[Vtx]], Set[Vtx], Vtx, pat=[rem(g, d, v)])", note, keys=K)
+    E.axiom("rem/zero-means-all-predecessors-done",
+            "forall(lambda g, d, v, u: implies(rem(g, d, v) == 0 and (u in g) and (v in g[u]), u in d), Map[Vtx, Set[Vtx]], Set[Vtx], Vtx, Vtx, mpat=[rem(g, d, v), v in g[u]])", note, keys=K)
+    E.axiom("rem/positive-has-a-pending-predecessor",
+            "forall(lambda g, d, v: implies(rem(g, d, v) > 0, (rem_wit(g, d, v) in g) and (v in g[rem_wit(g, d, v)]) and not (rem_wit(g, d, v) in d)), Map[Vtx, Set[Vtx]], Set[Vtx], Vtx, pat=[rem(g, d, v)])",
+            note, keys=K)
+    E.axiom("rem/one-more-done",
+            "forall(lambda g, d, u, v: implies((u in g) and not (u in d), rem(g, d | {u}, v) == rem(g, d, v) - (1 if v in g[u] else 0)), Map[Vtx, Set[Vtx]], Set[Vtx], Vtx, Vtx, pat=[rem(g, d | {u}, v)])",
+            note, keys=K)
+
+    DISTINCT = lambda s: f"forall(lambda i, j: implies(0 <= i and i < j and j < len({s}), {s}[i] != {s}[j]), Int, Int)"
+    INDOM = lambda s: f"forall(lambda i: implies(0 <= i and i < len({s}), {s}[i] in graph), Int)"
+    # ---- pigeonhole facts about len(dict) (assumed lemmas, instantiated explicitly)
+    add(Contract("lemma_card_full", kind="assumed", params={"graph": G, "s": "Seq[Vtx]"},
+                 requires=[DISTINCT("s"), INDOM("s"), "len(s) == len(graph)"],
+                 ensures=["forall(lambda u: implies(u in graph, u in s), Vtx)"],
+                 note="pigeonhole: a duplicate-free sequence of keys as long as the dict has keys contains every key", props=["C19"]))
+    add(Contract("lemma_card_cover", kind="assumed", params={"graph": G, "s": "Seq[Vtx]"},
+                 requires=[DISTINCT("s"), INDOM("s"), "forall(lambda u: implies(u in graph, u in s), Vtx)"],
+                 ensures=["len(s) == len(graph)"],
+                 note="a duplicate-free sequence of keys containing every key has the length of the dict", props=["C19"]))
+    add(Contract("collections:deque", kind="assumed", params={"iterable": G}, returns="Seq[Vtx]",
+                 ensures=[DISTINCT("result"), "forall(lambda i: implies(0 <= i and i < len(result), result[i] in iterable), Int)",
+                          "forall(lambda u: implies(u in iterable, u in result), Vtx)"],
+                 note="deque(dict): the keys, each once, in iteration order; a deque is modelled as a sequence", props=["C19"]))
+
+    # ---- what a topological ordering is (distinctness is not needed for the impossibility direction, which makes that clause stronger)
+    E.spec("is_order", f"g: {G}, p: Seq[Vtx]", "Bool", """
+        forall(lambda i: implies(0 <= i and i < len(p), p[i] in g), Int)
+        and forall(lambda u: implies(u in g, u in p), Vtx)
+        and forall(lambda i, j: implies(0 <= i and i < len(p) and 0 <= j and j < len(p) and (p[j] in g[p[i]]), i < j), Int, Int)""", native=_native_is_order)
+    CLOSED = "forall(lambda u, v: implies((u in graph) and (v in graph[u]), v in graph), Vtx, Vtx)"
+    STUCK = "forall(lambda v: implies((v in graph) and not (v in R), exists(lambda u: (u in graph) and not (u in R) and (v in graph[u]), Vtx)), Vtx)"
+    add(Contract(
+        "lemma_stuck_blocks_every_order", kind="lemma", params={"graph": G, "R": "Set[Vtx]", "pi": "Seq[Vtx]", "k": "Int"},
+        requires=[("stuck", STUCK), "0 <= k and k <= len(pi)",
+                  ("order-in-graph", "forall(lambda i: implies(0 <= i and i < len(pi), pi[i] in graph), Int)"),
+                  ("order-covers", "forall(lambda u: implies(u in graph, exists(lambda j: 0 <= j and j < len(pi) and pi[j] == u, Int)), Vtx)"),
+                  ("order-forward", "forall(lambda i, j: implies(0 <= i and i < len(pi) and 0 <= j and j < len(pi) and (pi[j] in graph[pi[i]]), i < j), Int, Int)")],
+        ensures=["forall(lambda i: implies(0 <= i and i < k, pi[i] in R), Int)"],
+        body="""
+        if k > 0:
+            lemma_stuck_blocks_every_order(graph, R, pi, k - 1)
+        """, decreases="k", props=["C19"]))
+
+    # ---- invariants of the main loop
+    RES = [
+        ("result-distinct", DISTINCT("result")),
+        ("result-in-graph", INDOM("result")),
+        ("R-is-result", "forall(lambda x: (x in R) == (x in result), Vtx)"),
+        ("predecessors-earlier", "forall(lambda i, u: implies(0 <= i and i < len(result) and (u in graph) and (result[i] in graph[u]), exists(lambda j: 0 <= j and j < i and result[j] == u, Int)), Int, Vtx)"),
+        ("R-predecessor-closed", "forall(lambda v, u: implies((v in R) and (u in graph) and (v in graph[u]), u in R), Vtx, Vtx)"),
+        ("indeg-keys", "forall(lambda v: (v in indeg) == (v in graph), Vtx)"),
+        ("starts-distinct", DISTINCT("starts")),
+    ]
+    STARTS = ("starts-are-ready", "forall(lambda v: (v in starts) == ((v in graph) and not (v in R) and indeg[v] == 0), Vtx)")
+    add(Contract(
+        f"{M}:toposort", params={"graph": G}, returns="Opt[Seq[Vtx]]", ghost={"pi": "Seq[Vtx]"},
+        requires=[("successors-are-vertices", CLOSED)],
+        ensures=[
+            ("order-each-vertex-once", "implies(result is not None, " + DISTINCT("the(result)") + " and " + INDOM("the(result)") + " and forall(lambda u: implies(u in graph, u in the(result)), Vtx))"),
+            ("order-edges-forward", "implies(result is not None, forall(lambda i, j: implies(0 <= i and i < len(the(result)) and 0 <= j and j < len(the(result)) and (the(result)[j] in graph[the(result)[i]]), i < j), Int, Int))"),
+            ("none-only-if-no-order-exists", "implies(result is None, not is_order(graph, pi))"),
+        ],
+        locals={"starts": "Seq[Vtx]", "indeg": "Map[Vtx, Int]", "result": "Seq[Vtx]", "R": "Set[Vtx]", "R0": "Set[Vtx]", "D": "Set[Vtx]", "D0": "Set[Vtx]", "E0": "Set[Vtx]"},
+        prologue=["E0 = set()", "D = set()", "R = set()", "R0 = set()", "D0 = set()"],
+        loops={
+            # in-degree computation: D = keys already processed
+            0: LoopSpec(header="for succs in graph.values()", index="k", length="n", seq="P", invariants=[
+                ("D-is-processed", "forall(lambda x: (x in D) == ((x in graph) and P_idx(x) < k), Vtx)"),
+                ("indeg-keys", "forall(lambda v: (v in indeg) == (v in graph), Vtx)"),
+                ("indeg-counts-processed", "forall(lambda v: implies(v in graph, indeg[v] == rem(graph, E0, v) - rem(graph, D, v)), Vtx)"),
+                ("starts-distinct", DISTINCT("starts")), ("indeg-non-negative", "forall(lambda v: implies(v in graph, indeg[v] >= 0), Vtx)"),
+                ("starts-are-untouched", "forall(lambda v: (v in starts) == ((v in graph) and indeg[v] == 0), Vtx)"),
+                ("E0-empty", "forall(lambda x: not (x in E0), Vtx)"), ("result-empty", "len(result) == 0"),
+            ]),
+            1: LoopSpec(header="for succ in succs", index="j", length="nj", seq="Q", invariants=[
+                ("current-key", "0 <= k and k < n and (P_key(k) in graph) and succs == graph[P_key(k)] and not (P_key(k) in D) and P_idx(P_key(k)) == k"),
+                ("D-is-processed", "forall(lambda x: (x in D) == ((x in graph) and P_idx(x) < k), Vtx)"),
+                ("indeg-keys", "forall(lambda v: (v in indeg) == (v in graph), Vtx)"),
+                ("indeg-counts-processed", "forall(lambda v: implies(v in graph, indeg[v] == rem(graph, E0, v) - rem(graph, D, v) + (1 if ((v in succs) and Q_idx(v) < j) else 0)), Vtx)"),
+                ("starts-distinct", DISTINCT("starts")), ("indeg-non-negative", "forall(lambda v: implies(v in graph, indeg[v] >= 0), Vtx)"),
+                ("starts-are-untouched", "forall(lambda v: (v in starts) == ((v in graph) and indeg[v] == 0), Vtx)"),
+                ("E0-empty", "forall(lambda x: not (x in E0), Vtx)"), ("result-empty", "len(result) == 0"),
+            ]),
+            2: LoopSpec(header="while starts", invariants=RES + [
+                ("indeg-is-remaining", "forall(lambda v: implies(v in graph, indeg[v] == rem(graph, R, v)), Vtx)"),
+                STARTS,
+            ]),
+            3: LoopSpec(header="for node_to in graph[node_from]", index="j", length="nj", seq="Q", invariants=RES + [
+                ("current-node", "(node_from in graph) and (node_from in R) and not (node_from in R0) and rem(graph, R0, node_from) == 0 and forall(lambda x: (x in R) == ((x in R0) or x == node_from), Vtx)"),
+                ("R0-predecessor-closed", "forall(lambda v, u: implies((v in R0) and (u in graph) and (v in graph[u]), u in R0), Vtx, Vtx)"),
+                ("indeg-partly-decremented", "forall(lambda v: implies(v in graph, indeg[v] == rem(graph, R0, v) - (1 if ((v in graph[node_from]) and Q_idx(v) < j) else 0)), Vtx)"),
+                STARTS,
+            ]),
+        },
+        after={"for succ in succs": ["D = D | {P_key(k)}"],
+               "node_from = starts.popleft()": ["assert (node_from in graph) and not (node_from in R) and rem(graph, R, node_from) == 0 and not (node_from in starts)",
+                                                "assert forall(lambda u: implies((u in graph) and (node_from in graph[u]), u in result), Vtx)"],
+               "result.append(node_from)": ["R0 = R", "R = R | {node_from}"]},
+        at={"if len(result) == len(graph)": [
+            "lemma_card_full(graph, result) if len(result) == len(graph) else None",
+            "lemma_stuck_blocks_every_order(graph, R, pi, len(pi)) if (len(result) != len(graph) and is_order(graph, pi)) else None",
+            "lemma_card_cover(graph, result) if (len(result) != len(graph) and is_order(graph, pi)) else None",
+        ]},
+        props=["C19"]))
+
+
+def _standins(E):
+    """The bounded part of C19: the permutation-filter oracle for both routines, and the consistency guard of what the proof assumes."""
+    import itertools
+    from collections import deque
+
+    from pyvc import native
+    from pyvc.driver import Standin
     from standin import c19
 
     E._c19 = c19.standin()
+
+    class _G(dict):
+        __slots__ = ()  # no __dict__: the postconditions are evaluated against the graph as it was on entry
+
+        def __missing__(self, key):  # graph[u] for a non-vertex u is an arbitrary value in the logic; the clauses guard it
+            return frozenset()
+
+    def run(tier, rng, src_root):
+        top = 3 if tier != "thorough" else 4
+        evals = 0
+        viol = []
+        lemmas = [E.registry.contracts[n] for n in ("lemma_card_full", "lemma_card_cover")]
+        dq = E.registry.contracts["collections:deque"]
+        for n in range(0, top + 1):
+            verts = [f"v{i}" for i in range(n)]
+            pairs = [(a, b) for a in verts for b in verts]
+            for mask in range(2 ** len(pairs)):
+                if n == top and tier != "thorough" and mask % 7:
+                    continue
+                g = _G({v: frozenset(b for i, (a, b) in enumerate(pairs) if a == v and mask >> i & 1) for v in verts})
+                u = native.Universe()
+                u.domains["Vtx"] = verts + ["outside"]
+                u.domains["Int"] = list(range(-1, n + 2))
+                u.domains["Map[Vtx, Set[Vtx]]"] = [g]
+                u.domains["Set[Vtx]"] = [frozenset(c) for r in range(n + 1) for c in itertools.combinations(verts, r)]
+                ns = native.base_namespace(E, u)
+                for name, text in E.axiom_texts.items():
+                    if not name.startswith("rem/"):
+                        continue
+                    evals += 1
+                    if not eval(native.compile_clause(text), dict(ns)):
+                        viol.append((f"assumed axiom {name} is false on a concrete graph", {"graph": {k: sorted(v) for k, v in g.items()}, "axiom": name}))
+                # the pigeonhole lemmas on every sequence of at most n + 1 vertices, and deque(dict)
+                for ln in range(0, n + 2):
+                    for s in itertools.product(verts, repeat=ln):
+                        for c in lemmas:
+                            env = dict(ns, graph=g, s=list(s))
+                            evals += 1
+                            if all(eval(native.compile_clause(cl.text), dict(env)) for cl in c.requires) and not all(eval(native.compile_clause(cl.text), dict(env)) for cl in c.ensures):
+                                viol.append((f"assumed lemma {c.target} is false on a concrete graph", {"graph": {k: sorted(v) for k, v in g.items()}, "s": list(s)}))
+                env = dict(ns, iterable=g, result=list(deque(g)))
+                evals += 1
+                if not all(eval(native.compile_clause(cl.text), dict(env)) for cl in dq.ensures):
+                    viol.append(("assumed contract of deque(dict) is false", {"graph": {k: sorted(v) for k, v in g.items()}}))
+                if viol:
+                    return dict(evaluations=evals, distinct_nontrivial=evals, violations=viol[:1], samples=[], rule="")
+        # the sequence model of deque: popleft / remove(first occurrence) / append, element-wise
+        for _ in range(200 if tier != "thorough" else 2000):
+            old = [rng.randrange(4) for _ in range(rng.randrange(1, 6))]
+            x = rng.choice(old)
+            d1, d2 = deque(old), deque(old)
+            first = d1.popleft()
+            d2.remove(x)
+            pos = old.index(x)
+            evals += 1
+            ok = first == old[0] and list(d1) == old[1:] and len(d2) == len(old) - 1 and all(d2[i] == (old[i] if i < pos else old[i + 1]) for i in range(len(d2)))
+            d2.append(7)
+            ok = ok and d2[-1] == 7 and len(d2) == len(old)
+            if not ok:
+                viol.append(("deque does not behave as the sequence model", {"old": old, "x": x}))
+                break
+        return dict(evaluations=evals, distinct_nontrivial=evals, violations=viol[:1],
+                    samples=[{"axiom": k, "text": t} for k, t in E.axiom_texts.items() if k.startswith("rem/")][:2],
+                    rule="the four assumed facts about the counting function rem, the two pigeonhole lemmas about len(dict) and the contract of deque(dict) evaluated on every digraph "
+                         "on <= 3 vertices (a seventh of them at 3; all <= 4 thorough), every subset D and every vertex sequence of length <= n + 1; deque operations vs the element-wise sequence model on random deques",
+                    exhaustive=False)
+
+    E._c19_axioms = Standin("toposort:counting-axioms", run, describe="consistency guard of the assumed counting facts: all digraphs <= 3 (4) vertices")
+
+    # the contract of toposort itself, evaluated at run time on the real function (cross-check of the proof against CPython; concretiser)
+    from pyvc.driver import Scope
+
+    def gen(tier, rng):
+        top = 3 if tier != "thorough" else 4
+        for n in range(0, top + 1):
+            pairs = [(a, b) for a in range(n) for b in range(n)]
+            for mask in range(2 ** len(pairs)):
+                if n == 4 and mask % 11:
+                    continue
+                edges = [list(p) for i, p in enumerate(pairs) if mask >> i & 1]
+                for pi in itertools.permutations(range(n)):
+                    yield {"n": n, "edges": edges, "pi": list(pi)}
+                if n:
+                    yield {"n": n, "edges": edges, "pi": [0] * n}
+        for _ in range(100 if tier != "thorough" else 1000):
+            n = rng.randrange(4, 8)
+            order = list(range(n))
+            rng.shuffle(order)
+            acyclic = rng.random() < 0.7
+            edges = [[i, j] for i in range(n) for j in range(n) if rng.random() < 0.25 and (not acyclic or order.index(i) < order.index(j))]
+            pi = list(order) if rng.random() < 0.6 else [rng.randrange(n) for _ in range(n)]
+            yield {"n": n, "edges": edges, "pi": pi}
+
+    def build(recipe, src_root):
+        mod = native.import_real(M, src_root)
+        verts = [f"v{i}" for i in range(recipe["n"])]
+        g = _G({v: set() for v in verts})
+        for a, b in recipe["edges"]:
+            g[verts[a]].add(verts[b])
+        u = native.Universe()
+        u.domains["Vtx"] = verts + ["outside"]
+        u.domains["Int"] = list(range(-1, recipe["n"] + 2))
+        return (lambda graph: mod.toposort(graph)), {"graph": g, "pi": [verts[i] for i in recipe["pi"]]}, u
+
+    E.registry.scopes[f"{M}:toposort"] = Scope(
+        gen, build, describe="every digraph (self-loops included) on <= 3 vertices (4: every eleventh, thorough) x every permutation as the candidate ordering pi (plus a constant sequence); 100 (1000) random digraphs on 4-7 vertices")
+
+
+_setup1 = setup
+
+
+def setup(E):  # noqa: F811
+    _setup1(E)
+    _standins(E)
